@@ -205,7 +205,7 @@ def main(tier: str, seed: int) -> int:
             want = {"steps": [{"kind": "reset", "obs": "-", "reward": "-", "flags": "-", "agents": {}, "state": "shared:"}], "agents": [], "raised": None}
             traces.append(pairs.pair_trace(fake, want, meta={"part": "ownership", "scenario": label, "run": which}))
     res = tlc.validate("PairTrace", traces)
-    common.judge_traces(chk, "Pair", traces, res, sig_fn)
+    common.judge_traces(chk, "Pair", traces, res, sig_fn, selftest="PairTrace")
     chk.sample({"pair": traces[0]["meta"], "first_positions": traces[0]["ev"][:1]})
     chk.assumptions += [
         "instances are compared on scenarios without scripted agents: random/numpy RNGs are process-wide and are the declared "
